@@ -8,7 +8,7 @@
    D14 (an absent target used to be created empty for locking) is repaired: the statements hold
    for an absent prior state as well; there is no known class left. *)
 From Coq Require Import NArith List String.
-From SG Require Import State.Fs State.AtomicWrite State.Proofs_C13 State.Proofs_C13b.
+From SG Require Import State.Fs State.AtomicWrite State.Proofs_C13 State.Proofs_C13b State.Proofs_C13c.
 Import ListNotations.
 Open Scope N_scope.
 
@@ -64,7 +64,8 @@ Print Assumptions C13_temp_content.
 
 (* crash HISTORIES: [after_crashes f h] is what any sequence h of crashed saves (content, size,
    crash point) of a process with the same, recycled pid leaves -- each starts from what the
-   previous one left, the stale temp file  .<name>.tmp.<pid>  included (File::create truncates it).
+   previous one left, the stale temp file included even under the SAME name (the adversary of the
+   pid-only temp name before D95; since D95 a residue keeps a name of its own and is never reused).
    A save that then runs to completion installs exactly the new content and leaves no temp file. *)
 Theorem C13_save_after_any_crash_history : forall (prior : option bytes) (h : list (bytes * N * nat)) (new : bytes) (sz : N),
   target (crash_from (after_crashes (fs_init prior) h) new sz 9) = Some new /\
@@ -92,6 +93,32 @@ Example C13_stale_temp_is_truncated :
   target (crash_from (crash (Some (ser [1])) (ser [1; 2; 3; 4; 5]) 20000 6) (ser [7]) 3 9) = Some (ser [7]).
 Proof. vm_compute. split; reflexivity. Qed.
 Print Assumptions C13_stale_temp_is_truncated.
+
+(* D95 (repaired): the temp file is created with create_new under a name the save advances until
+   the creation succeeds. What that gives: the name was unbound, the inode is fresh, no other
+   name and no older inode is touched -- so [Temp p] is private to the save also between two
+   processes with the same operating-system pid. *)
+Theorem C13_exclusive_temp_is_fresh : forall (f : fs) (n : fname) (f' : fs) (i : inode),
+  create_excl f n = Some (f', i) ->
+  names f n = None /\ i = next f /\ names f' n = Some i /\ data f' i = [] /\
+  (forall m, fname_eqb m n = false -> names f' m = names f m) /\
+  (forall j, j < next f -> data f' j = data f j).
+Proof. exact create_excl_fresh. Qed.
+Print Assumptions C13_exclusive_temp_is_fresh.
+
+Theorem C13_exclusive_temp_refuses_shared_name : forall (f : fs) (n : fname) (i : inode),
+  names f n = Some i -> create_excl f n = None.
+Proof. exact create_excl_refuses_bound. Qed.
+Print Assumptions C13_exclusive_temp_refuses_shared_name.
+
+(* the former D95 witness: with a temp name shared by two saves (File::create on the pid-only
+   name, two processes with pid 1 in different PID namespaces) A, standing after its fsync while B
+   creates the temp file and is killed, renames an empty file over the target *)
+Example C13_shared_temp_name_refuted :
+  target (shared_temp_name_run (Some (ser [1])) (ser [1; 2]) (ser [1; 2])) = Some [] /\
+  target (shared_temp_name_run None (ser [1; 2]) (ser [1; 2])) = Some [].
+Proof. exact shared_temp_name_empties_target. Qed.
+Print Assumptions C13_shared_temp_name_refuted.
 
 (* a target that is a mount point: the rename is refused, the save fails and the file is untouched *)
 Theorem C13_refused_rename : forall (prior : option bytes) (new : bytes) (sz : N),
